@@ -19,6 +19,8 @@ SEARCHERS = {
     "C03": {"file": "search/deflate.rs", "mode": "append", "target": "src/process.rs", "env": {"VERIF_SEARCH": "c03"}},
     "C08P": {"file": "search/deflate.rs", "mode": "append", "target": "src/process.rs", "env": {"VERIF_SEARCH": "c08p"}},
     "C05": {"file": "search/deflate.rs", "mode": "append", "target": "src/process.rs", "env": {"VERIF_SEARCH": "c05"}},
+    # thorough tier: zlib's own inflate as the oracle (keeps the libz-sys dev-dependency: a C build)
+    "C03Z": {"file": "search/deflate.rs", "mode": "append", "target": "src/process.rs", "env": {"VERIF_SEARCH": "c03z"}, "keep_dev": ["libz-sys"], "cfg": "verif_zlib"},
     "C04": {"file": "search/golden.rs", "mode": "integration", "env": {"VERIF_GOLDEN_FILE": os.path.join(VERIF, "golden", "golden.txt")}},
     "C02": {"file": "search/deflate.rs", "mode": "append", "target": "src/process.rs", "env": {"VERIF_SEARCH": "c02"}},
 }
@@ -39,7 +41,10 @@ def run_search(prop, timeout=1500, extra_env=None, want_output=False):
                 shutil.copy(s, os.path.join(d, item))
         # the searcher needs no dev-dependencies: drop them so that no C libraries have to be built
         ct = open(os.path.join(d, "Cargo.toml")).read()
-        ct = re.sub(r"\[dev-dependencies\][^\[]*", "", ct)
+        keep = sp.get("keep_dev", [])
+        devsec = re.search(r"\[dev-dependencies\][^\[]*", ct)
+        kept = [l for l in (devsec.group(0).split("\n") if devsec else []) if any(l.strip().startswith(k) for k in keep)]
+        ct = re.sub(r"\[dev-dependencies\][^\[]*", ("[dev-dependencies]\n" + "\n".join(kept) + "\n") if kept else "", ct)
         open(os.path.join(d, "Cargo.toml"), "w").write(ct)
         body = open(os.path.join(VERIF, sp["file"])).read()
         if sp["mode"] == "integration":
@@ -52,7 +57,7 @@ def run_search(prop, timeout=1500, extra_env=None, want_output=False):
             cmd = ["cargo", "test", "--release", "--offline", "--lib", "verif_search", "--", "--nocapture", "--test-threads", "1"]
         # optimised build, but with the arithmetic semantics the verification uses and the test suite runs under:
         # an overflow is a panic
-        env = dict(os.environ, CARGO_NET_OFFLINE="true", RUST_BACKTRACE="0", RUSTFLAGS="-C overflow-checks=on", **sp.get("env", {}))
+        env = dict(os.environ, CARGO_NET_OFFLINE="true", RUST_BACKTRACE="0", RUSTFLAGS="-C overflow-checks=on" + ((" --cfg " + sp["cfg"]) if sp.get("cfg") else ""), **sp.get("env", {}))
         env.update(extra_env or {})
         try:
             p = subprocess.run(cmd, cwd=d, capture_output=True, text=True, timeout=timeout, env=env)
